@@ -158,7 +158,7 @@ def _run_exh(acc, job):
 
 @st.composite
 def _hyp_case(draw):
-    kind = draw(st.sampled_from(["binary", "weighted", "weighted", "faithless", "embedded"]))
+    kind = draw(st.sampled_from(["binary", "weighted", "weighted", "faithless", "embedded", "wide"]))
     if kind == "binary":
         case = {"A": draw(S.dag_pattern(1, 9)), "dtype": draw(st.sampled_from(["int", "float", "uint8", "bool", "float32"]))}
     elif kind == "weighted":
@@ -166,6 +166,11 @@ def _hyp_case(draw):
         case = {"W": W, "dtype": draw(st.sampled_from(["int", "float"]))}
     elif kind == "faithless":
         case = {"W": draw(S.faithless_dag(3, 7)), "dtype": "float"}
+    elif kind == "wide":
+        W, cls = draw(S.weighted_dag(2, 7))
+        B = draw(S.embedded_wide(W))
+        B = B if len(B) <= 33 else draw(S.embedded(W, 13, 33))       # capacity p(p-1)/2 stays affordable for "add the maximum"
+        case = {"W": B, "dtype": "float"}
     else:
         W, cls = draw(S.weighted_dag(2, 6))
         case = {"W": draw(S.embedded(W, 9, 11)), "dtype": "float"}
